@@ -1391,6 +1391,16 @@ func Safe(c gen.ClauseV) (ok bool, why string) {
 		}
 	}
 	for _, stmts := range c.Transforms {
+		if len(stmts) > 0 && stmts[0].Var == "" && stmts[0].Fn.Name == "fn:group_by" {
+			// the group key is a list of distinct variables of the body (documented form: fn:group_by(X, Y))
+			for _, k := range stmts[0].Fn.Args {
+				if k.K != "var" || k.Name == "_" {
+					return false, "group-key-not-a-variable"
+				}
+			}
+		}
+	}
+	for _, stmts := range c.Transforms {
 		isLet := len(stmts) > 0 && stmts[0].Var != ""
 		sofar := map[string]bool{}
 		for _, s := range stmts {
